@@ -37,7 +37,10 @@ PROP = dict(
                            "mpt_node_parse": 50000, "mpt_parse_node:failing": 10000, "outcome:node-parse-replaced": 20000,
                            "state:node-parse-on-node-with-children": 15000, "outcome:parse-text-error": 25000,
                            "outcome:parse-bad-limits": 8000, "outcome:parse-bad-format": 10000, "outcome:parse-no-file": 5000,
-                           "state:failed-parse-on-node-with-children": 40000}),
+                           "state:failed-parse-on-node-with-children": 40000,
+                           "mpt_node_assign": 50000, "state:assign-created-2": 10000, "state:assign-created-3": 10000,
+                           "state:assign-created-4": 10000, "state:assign-created-5plus": 15000, "state:assign-empty-tree": 15000,
+                           "state:assign-populated-list": 20000, "state:assign-below-node": 15000, "outcome:assign-replaced-value": 1000}),
               dict(name="c14_cxx", src=["c14_cxx.cpp"], libs=["mpt++", "mptio", "mptplot", "mptcore"], batch=512, lsan=True,
                    floors={"node::~node": 200000, "node::~node:scope-exit": 50000, "node::node": 100000, "node::node:automatic": 50000,
                            "node::create(name)": 50000, "node::create(size)": 50000, "mpt_node_new": 50000,
@@ -49,6 +52,14 @@ PROP = dict(
                            "state:scope-toplevel-head": 10000, "state:scope-toplevel-middle": 10000, "state:scope-toplevel-tail": 10000,
                            "state:scope-child-head": 5000, "state:scope-child-middle": 2000, "state:scope-child-tail": 2000,
                            "state:dtor-with-children": 10000, "state:shared-value": 5000,
+                           "mpt_node_clone": 10000, "mpt_list_clone": 10000, "mpt_tree_clone": 10000, "state:clone-depth2": 2000,
+                           "node::set_metatype:library-value": 50000, "value:small-text": 5000, "value:long-text": 5000,
+                           "value:generic-int": 5000, "value:buffer-queue": 30000, "state:buffer-fresh": 5000,
+                           "state:buffer-partly-consumed": 3000, "state:buffer-partly-read": 3000, "state:buffer-exhausted": 8000,
+                           "state:buffer-open-entry": 10000, "io::buffer::advance": 20000, "io::buffer::read": 10000,
+                           "io::buffer::push": 10000, "monitor:clone-node-compares": 50000, "monitor:clone-value-compares": 20000,
+                           "monitor:clone-buffer-compares": 20000, "monitor:clone-independence-checks": 15000,
+                           "monitor:clone-open-entry-compares": 3000,
                            "monitor:structure-walks": 1000000, "monitor:release-witnessed": 300000,
                            "monitor:final-release-audits": 30000})],
         rule=("case = one PRNG history: 2..6 initial nodes, then 15..70 (thorough: 110) operations drawn from node_new, gnode_after/before, "
@@ -59,14 +70,19 @@ PROP = dict(
               "children, mpt_node_parse (file front end) with good input (replaces the children), text errors (unclosed section, stray section end, "
               "assignment without name), refused limits / format / file and failing mpt_parse_node calls (tree must be untouched), manual "
               "concatenation of a detached list behind the last child of a node at any depth + gnode_relink from the node, its parent, "
-              "grandparent or root; every node is destroyed at the end and every value must then have exactly one release.  non-trivial = the forest reached "
+              "grandparent or root, mpt_node_assign with paths of 1..6 elements (0..6 missing levels) on an empty tree, a populated top-level list "
+              "or the child list of a node; every node is destroyed at the end and every value must then have exactly one release.  non-trivial = the forest reached "
               "depth >= 2, >= 8 structure-changing operations were executed and at least one of {clone of depth >= 2, move that merges or "
               "re-parents children, parse_node merge into existing children, mpt_node_parse (any outcome) on a node with children, concatenation "
               "relinked from an ancestor above the parent} happened; distinct = 64-bit hash of the operation list with arguments.  "
               "C++ leg (c14_cxx): one history of 12..50 (80) operations over <= 20 mpt::node objects on the heap (node::create, mpt_node_new), in "
               "harness storage (placement new, explicit destructor = member/automatic life time) and in real automatic storage (scope exit), "
               "linked with the six C insert functions below a parent and in parent-less lists, destructor run at head/middle/tail/isolated, "
-              "set_metatype, reference assignment (shared values), data(), mpt_node_clear/destroy/unlink on them; non-trivial = >= 3 destructor "
+              "set_metatype, reference assignment (shared values), data(), mpt_node_clear/destroy/unlink on them; node values of every kind the "
+              "library makes (small text, long text = buffer value, generic int, io::buffer queue of entries in fresh / partly consumed / partly "
+              "read / exhausted / open-entry state), consumed or extended between operations; mpt_node/list/tree_clone with comparison of what "
+              "source and copy present (raw bytes, text, int conversion) at every depth, termination of open entries on both, and an "
+              "independence check (consume/extend one side, the other keeps its value); non-trivial = >= 3 destructor "
               "runs, at least one of a node inside a parent-less list, depth >= 1"),
         assumptions=SAN_BASE + ["admissible caller: a node handed to after/before/add/insert is unlinked and is not an ancestor of the position; "
                                 "swap/switch operands are not ancestor and descendant; move source and target lists are disjoint; "
